@@ -50,6 +50,29 @@ CHECKS = {
           "later ones the preconditioned formula with the stored (sharded: previous) preconditioner.",
           "The model abstracts values to versions; schedules outside the two tabulated ones and horizons > 40 are not covered.",
           "DESIGN.md §4 C04"),
+  "C05": ("explicit-state BFS over all gradient histories for the product graft type x preconditioner representation x start step "
+          "x skip rule through the real optimizers, closed-form float64 grafting steps, direction obtained by an independent dense "
+          "application of the state's own preconditioners",
+          "distributed_shampoo: 6 graft types x {full, low-rank +2, -2, frequent directions, int16-quantized under pmap} x start {0,2} "
+          "({0..3}) x {no exclusion, skip_preconditioning_rank_lt, skip_preconditioning_dim_size_gt}; tearfree: {SGD, RMSPROP, ADAFACTOR} "
+          "x {Shampoo, Sketchy} x start x skip rules; every history over {gA,gB,gSeed,g0} of length <= 3 (4) with momentum, Nesterov and "
+          "weight decay off and lr=1. Per leaf and step: before the start step and for excluded leaves the update equals the closed-form "
+          "grafting step (1e-6); afterwards its norm equals the grafting step's norm (1e-5), it is parallel to the gradient "
+          "preconditioned with the matrices the stored (packed, quantized, sketched) preconditioners denote (angle bounded by the "
+          "float32 rounding bound of that application, at least 1.5e-3), or zero when that gradient is zero.",
+          "The direction clause is skipped (counted) where the float32 application of the stored preconditioners is itself "
+          "ill-conditioned (bound > 0.3 rad: lossless frequent-directions states whose complement constant is ~1e14); "
+          "optax.adafactor is the trusted base for ADAFACTOR.", "DESIGN.md §4 C05"),
+  "C08": ("explicit-state enumeration of block layouts x per-block scale vectors x companions x all gradient histories through the "
+          "real optimizers, three-run differential oracle (blocked tensor / blocks as separate leaves / with a companion)",
+          "distributed_shampoo layouts 4x3 and 5x3 with block 2 (ragged blocks; thorough adds 4x4 and 3x5) and tearfree layouts 4x2, 6x2 "
+          "(4x4) with block 2, every per-block gradient scale vector over {2^-20, 1, 2^20} (at most 3 non-unit scales when there are "
+          "more than 4 blocks), graft NONE and SGD, companions {small, larger than every block, 2^20-scaled}, every history over "
+          "{gA,gB} of length <= 2 (3): each block of the blocked tensor must be updated exactly like the same block as a separate "
+          "tensor (1e-3 of the block's max-norm), with SGD grafting the update must be the separately preconditioned blocks rescaled by "
+          "the parameter-level norm ratio, and the update must not change when a companion parameter is added.",
+          "More than 6 blocks and ill-conditioned blocks are not covered; merging is off so that a block and a separate leaf get the "
+          "same interpretation.", "DESIGN.md §4 C08"),
   "C06": ("explicit-state enumeration (depth 1) of every tensor shape of rank 0..5 with dims 1..B x block sizes x merge limits x "
           "preconditioner types x compression rank through the real shape routines on index-valued tensors",
           "All 364 (quick, B=3) / 1365+ (thorough, B=4) shapes crossed with block sizes 0..B+1, 7 merge limits, 3 preconditioner types "
